@@ -18,15 +18,30 @@
 EXTENDS Rat, DecFloat, Sequences, FiniteSets
 
 One == RInt(1)
-ISqrt(c) == CHOOSE s \in 1..50 : s * s = c          \* C is enumerated over perfect squares
+IsSquare(c) == \E s \in 1..50 : s * s = c
+ISqrt(c) == CHOOSE s \in 1..50 : s * s = c          \* p_monolayer = 1 / (sqrt(C) + 1) is rational for perfect squares only
 
 \* ---- governing equations (reduced loading x = n / n_m, exact)
 BetX(C, p)  == RDiv(RMul(RInt(C), p), RMul(RSub(One, p), RAdd(RSub(One, p), RMul(RInt(C), p))))
 LangX(K, p) == RDiv(RMul(K, p), RAdd(One, RMul(K, p)))
 \* the same as factor lists n = n_m * ... (for wide parameter ranges)
-BetPoint(nm, C, p)  == <<nm, RMul(RInt(C), p), RInv(RSub(One, p)), RInv(RAdd(RSub(One, p), RMul(RInt(C), p)))>>
+\* (integer numerators / denominators of p = a/b directly: C a reaches 4e5 on dense grids, beyond the Rat operand guard)
+BetPoint(nm, C, p)  == <<nm, R(C * p[1], p[2]), R(p[2], p[2] - p[1]), R(p[2], p[2] - p[1] + C * p[1])>>
 LangPoint(nm, K, p) == <<nm, RMul(K, p), RInv(RAdd(One, RMul(K, p)))>>
 LinPoint(s, i, t)   == RAdd(RMul(s, t), i)            \* t-plot / alpha-s: n = s * t + i
+
+\* ---- Rouquerol transform of exact BET data: n (1 - p) = n_m C p / (1 - p + C p) = n_m / (1 + (1 - p) / (C p)).
+\* It increases from p1 = a1/b1 to p2 = a2/b2 iff (1 - p1) / p1 > (1 - p2) / p2 (n_m, C > 0 cancel), i.e. iff
+\* (b1 - a1) a2 > (b2 - a2) a1: an exact integer test that stays small on dense grids and for C of 2000, where
+\* consecutive values differ by a few 1e-6 relative (LinearisedMC!RoqMonotone ties it to the rational definition).
+RoqStrictUp(p1, p2) == (p1[2] - p1[1]) * p2[1] > (p2[2] - p2[1]) * p1[1]
+LMin(S) == CHOOSE x \in S : \A y \in S : x <= y
+RoqEnds(ps) == LET D == {j \in 1..(Len(ps) - 1) : ~RoqStrictUp(ps[j], ps[j + 1])}
+               IN IF D = {} THEN {Len(ps)} ELSE {LMin(D), LMin(D) + 1}                 \* 1-based; either reading of "stops increasing"
+TenthLess(ps, e) == Cardinality({j \in 1..Len(ps) : 10 * ps[j][1] * ps[e][2] < ps[e][1] * ps[j][2]})
+TenthLeq(ps, e)  == Cardinality({j \in 1..Len(ps) : 10 * ps[j][1] * ps[e][2] <= ps[e][1] * ps[j][2]})
+\* the automatic BET windows <<first, last>> (0-based) the property allows on the grid ps
+RoqWindows(ps) == UNION {{<<s, e - 1>> : s \in {TenthLess(ps, e), TenthLeq(ps, e)}} : e \in RoqEnds(ps)}
 
 \* ---- transforms (the ordinate each method regresses against its abscissa)
 BetT(p, n)  == RDiv(p, RMul(n, RSub(One, p)))         \* p / (n (1 - p))   vs p
@@ -44,7 +59,8 @@ LangK(s, i)  == RInv(RMul(i, RInv(s)))                \* K = 1 / (i n_m)
 NA18 == <<60221408, -2>>                              \* N_A * 1e-18 = 602214.076 (DecFloat; exact value used by the harness)
 BetExpect(nm, C, sigma) ==
    [slope |-> <<R(C - 1, C), RInv(nm)>>, intercept |-> <<R(1, C), RInv(nm)>>,
-    c_const |-> <<RInt(C)>>, n_monolayer |-> <<nm>>, p_monolayer |-> <<R(1, ISqrt(C) + 1)>>,
+    c_const |-> <<RInt(C)>>, n_monolayer |-> <<nm>>,
+    p_monolayer |-> IF IsSquare(C) THEN <<R(1, ISqrt(C) + 1)>> ELSE <<>>,        \* <<>>: not supplied (irrational)
     area_over_NA18 |-> <<nm, sigma>>, corr_coef |-> <<One>>]
 LangExpect(nm, K, sigma) ==
    [slope |-> <<RInv(nm)>>, intercept |-> <<RInv(K), RInv(nm)>>,
